@@ -156,6 +156,51 @@ func badDocs() []doc {
 	}
 }
 
+// invalidByteDocs: a byte (sequence) that is not valid in Cedar text, or valid but unusual, in
+// every lexical context (comments, strings, identifiers, white space, the tail of the
+// document), early in the document, late in it, and at each offset around the first buffer
+// edge. Whether the whole-slice parse accepts or rejects each is not prescribed here: the
+// stream must do the same under every schedule.
+func invalidByteDocs() []doc {
+	bytesOf := []struct{ name, b string }{
+		{"NUL", "\x00"}, {"FF", "\xff"}, {"overlong", "\xc0\x80"}, {"surrogate", "\xed\xa0\x80"}, {"truncated-3byte", "\xe2\x9c"}, {"above-max", "\xf4\x90\x80\x80"},
+		{"continuation", "\x80"}, {"DEL", "\x7f"}, {"VT", "\x0b"}, {"FF-whitespace", "\x0c"}, {"BOM", "\ufeff"}, {"LS", "\u2028"}, {"NEL", "\u0085"}, {"NBSP", "\u00a0"},
+	}
+	ctxs := []struct{ name, before, after string }{
+		{"line-comment", "permit(principal, action, resource) // a", "b\nwhen { true };"},
+		{"line-comment-at-end", "permit(principal, action, resource);\n// a", "b"},
+		{"block-comment", "permit(principal, action, resource) /* a", "b */ when { true };"},
+		{"string", "permit(principal, action, resource) when { \"a", "b\" == \"x\" };"},
+		{"entity-id", "permit(principal == U::\"a", "b\", action, resource);"},
+		{"annotation", "@a(\"x", "y\") permit(principal, action, resource);"},
+		{"identifier", "permit(principal, action, resource) when { context.a", "b };"},
+		{"white-space", "permit(principal, action, resource) when {", "true };"},
+		{"tail", "permit(principal, action, resource);", ""},
+		{"between-policies", "permit(principal, action, resource);", "permit(principal, action, resource);"},
+	}
+	long := strings.Repeat("permit(principal, action, resource);\n", 40)
+	var out []doc
+	for _, c := range ctxs {
+		for _, b := range bytesOf {
+			for pl := 0; pl < 7; pl++ {
+				var prefix string
+				switch pl {
+				case 0:
+				case 1:
+					prefix = long
+				default:
+					at := 1020 + pl // the byte lands at offsets 1022..1026
+					if n := at - len(c.before); n > 0 {
+						prefix = strings.Repeat(" ", n)
+					}
+				}
+				out = append(out, doc{name: fmt.Sprintf("invalid-byte-%s-in-%s-placement%d", b.name, c.name, pl), src: []byte(prefix + c.before + b.b + c.after + "\n"), bad: true})
+			}
+		}
+	}
+	return out
+}
+
 // ---------------------------------------------------------------------------
 // scheduled reader
 
@@ -483,6 +528,7 @@ func Check() *core.Check {
 			docs := allDocs()
 			strad := straddleDocs()
 			bad := badDocs()
+			inv := invalidByteDocs()
 			return []*core.Family{
 				{
 					Name: "positions",
@@ -498,10 +544,10 @@ func Check() *core.Check {
 				},
 				{
 					Name: "schedules-bounded-deviations",
-					Desc: fmt.Sprintf("every reader schedule with <=%d deviations from full reads (menu: 1, 2, 3, len-1, 0 bytes, data+EOF) on %d straddle documents, %d mixed documents and %d invalid documents", bound, len(strad), len(docs), len(bad)),
-					N:    int64(len(docs) + len(strad) + len(bad)),
+					Desc: fmt.Sprintf("every reader schedule with <=%d deviations from full reads (menu: 1, 2, 3, len-1, 0 bytes, data+EOF) on %d straddle documents, %d mixed documents, %d invalid documents and %d documents with an invalid or unusual byte in every lexical context", bound, len(strad), len(docs), len(bad), len(inv)),
+					N:    int64(len(docs) + len(strad) + len(bad) + len(inv)),
 					Run: func(t *core.T, i int64) {
-						all := append(append(append([]doc{}, docs...), strad...), bad...)
+						all := append(append(append(append([]doc{}, docs...), strad...), bad...), inv...)
 						d := all[i]
 						exp := whole(d)
 						st := core.Explore(t, bound, 0, func(c *core.Ctx) {
@@ -531,6 +577,10 @@ func Check() *core.Check {
 						}
 						for _, d := range bad {
 							compare(t, d, whole(d), &schedReader{data: d.src, uniform: c, failAt: -1}, fmt.Sprintf("uniform %d", c))
+							t.AddStates(1)
+						}
+						for k := int(i) % 3; k < len(inv); k += 3 { // 3 is coprime to the 7 placements
+							compare(t, inv[k], whole(inv[k]), &schedReader{data: inv[k].src, uniform: c, failAt: -1}, fmt.Sprintf("uniform %d", c))
 							t.AddStates(1)
 						}
 						t.Nontrivial()
